@@ -364,3 +364,92 @@ func TestVF_C09_Random(t *testing.T) {
 		}
 	})
 }
+
+// TestVF_C09_FailedUpdate: every way an applicable-looking update can fail - a gap, a revoked value,
+// an issuer-signed accumulator whose value does not belong to its events, a witness whose u was
+// damaged in storage - must return an error and leave the witness exactly as it was.
+func TestVF_C09_FailedUpdate(t *testing.T) {
+	rec := vfh.New(t, "C09")
+	defer rec.Flush()
+	rec.Check(func(rt *rapid.T) {
+		seedLib(t, rapid.Uint64().Draw(rt, "libSeed"))
+		n := rapid.IntRange(1, 8).Draw(rt, "n")
+		targets := make([]int, n)
+		revoked := map[int]bool{}
+		for j := 0; j < n; j++ {
+			targets[j] = -1
+			if rapid.Bool().Draw(rt, "revokeWitness") {
+				t := rapid.IntRange(0, j).Draw(rt, "target")
+				if !revoked[t] {
+					targets[j] = t
+					revoked[t] = true
+				}
+			}
+		}
+		h := buildHist(rapid.IntRange(0, 3).Draw(rt, "key"), targets)
+		pk := h.c.kp.Pk
+		wi := rapid.IntRange(0, n-1).Draw(rt, "wit")
+		w := cloneWitness(h.wits[wi])
+		b := rapid.IntRange(wi+1, n).Draw(rt, "b")
+		a := rapid.IntRange(0, wi+1).Draw(rt, "a")
+		kind := rapid.SampledFrom([]string{"inconsistent-accumulator-value", "damaged-witness-u", "gap", "revoked", "inconsistent-accumulator-value-after-a-good-update"}).Draw(rt, "kind")
+		upd := h.c.window(a, b, rapid.Bool().Draw(rt, "resigned"))
+		rev := h.revokedAt[wi]
+		switch kind {
+		case "inconsistent-accumulator-value-after-a-good-update":
+			if rev != 0 || wi+1 >= n {
+				rt.Skip("needs a never-revoked witness and two more events")
+			}
+			mid := rapid.IntRange(wi+1, n-1).Draw(rt, "mid")
+			if err := w.Update(pk, h.c.window(0, mid, false)); err != nil {
+				rec.Fail(rt, "valid-update-fails:model-ok", map[string]any{"targets": targets, "wit": wi, "mid": mid, "err": fmt.Sprint(err)})
+				return
+			}
+			wi = mid
+			b = rapid.IntRange(mid+1, n).Draw(rt, "b2")
+			upd = h.c.window(0, b, false)
+			fallthrough
+		case "inconsistent-accumulator-value":
+			if rev != 0 && rev <= b {
+				rt.Skip("revoked in the window")
+			}
+			acc := *h.c.accs[b]
+			acc.Nu = new(big.Int).Exp(acc.Nu, bi(int64(rapid.IntRange(2, 9).Draw(rt, "pow"))), pk.N)
+			upd.SignedAccumulator = h.c.sign(&acc)
+		case "damaged-witness-u":
+			if rev != 0 && rev <= b {
+				rt.Skip("revoked in the window")
+			}
+			w.U = new(big.Int).Mod(new(big.Int).Mul(w.U, bi(int64(rapid.IntRange(2, 9).Draw(rt, "mul")))), pk.N)
+		case "gap":
+			if wi+2 > b {
+				rt.Skip("no room for a gap")
+			}
+			upd = h.c.window(rapid.IntRange(wi+2, b).Draw(rt, "gapStart"), b, false)
+		case "revoked":
+			if rev == 0 || rev > b {
+				rt.Skip("not revoked in the window")
+			}
+		}
+		snapU, snapE := new(big.Int).Set(w.U), new(big.Int).Set(w.E)
+		snapPtr, snapS, snapUpd := w.SignedAccumulator, *w.SignedAccumulator, w.Updated
+		var err error
+		det := map[string]any{"targets": targets, "witness_at": wi, "window": []int{a, b}, "kind": kind}
+		if ps := vfh.Guard(func() { err = w.Update(pk, upd) }); ps != "" {
+			rec.Fail(rt, ps, det)
+			return
+		}
+		rec.Case("failed-update/"+kind, true, fmt.Sprintf("%v|%d|%d|%d|%s", targets, wi, a, b, kind))
+		if err == nil {
+			rec.Fail(rt, "failing-update-reported-as-success:"+kind, det)
+			return
+		}
+		unchanged := w.U.Cmp(snapU) == 0 && w.E.Cmp(snapE) == 0 && w.SignedAccumulator == snapPtr &&
+			string(w.SignedAccumulator.Data) == string(snapS.Data) && w.SignedAccumulator.PKCounter == snapS.PKCounter &&
+			w.SignedAccumulator.Accumulator == snapS.Accumulator && w.Updated.Equal(snapUpd)
+		if !unchanged {
+			det["err"] = fmt.Sprint(err)
+			rec.Fail(rt, "failed-or-void-update-changes-witness", det)
+		}
+	})
+}
